@@ -67,19 +67,21 @@ def dims(terms):
     return tuple(total)
 
 
-def exp_text(num, den):
+def exp_text(num, den, negden=False):
     if den == 1:
         return "" if num == 1 else str(num)
+    if negden and num < 0:
+        return f"{-num}:{-den}"         # the sign written on the denominator: s1:-2
     return f"{num}:{den}"
 
 
-def text(terms, style=0):
+def text(terms, style=0, negden=False):
     """Render terms as a unit expression.  style 0: product with signed exponents;
     style 1: numerator / denominator (parenthesised when several)."""
     if not terms:
         return None
     if style == 0:
-        return "*".join(f"{p}{s}{exp_text(n, d)}" for p, s, n, d in terms)
+        return "*".join(f"{p}{s}{exp_text(n, d, negden)}" for p, s, n, d in terms)
     num = [(p, s, n, d) for p, s, n, d in terms if n > 0]
     den = [(p, s, -n, d) for p, s, n, d in terms if n < 0]
     if not den or not num:
